@@ -193,6 +193,9 @@ func (m *Manager) createTable(name string) (Table, error) {
 }
 
 func (m *Manager) DeleteTable(name string) error {
+	if err := validateTableName(name); err != nil {
+		return err
+	}
 	m.mtx.Lock()
 	defer m.mtx.Unlock()
 	storeName := storedTableName(name)
